@@ -331,3 +331,81 @@ func VerifC02_QueryErrorReported() {
 	}
 	rt.Reach("queryerr-end")
 }
+
+// ---- delayed write cache: gets through the caching interface always see the
+// latest write; after a flush the storage (any other interface, queries) does ----
+
+func VerifC02_DelayedWrites() {
+	rt.NoTimers()
+	rt.SchedYieldOnly(true)
+	c02Setup(rt.Bool("shadowdelete"))
+	cached := NewInterface(&Options{Local: true, Internal: true, CacheSize: 4, DelayCachedWrites: "t"})
+	plain := NewInterface(&Options{Local: true, Internal: true})
+	keys := []string{"a", "b"}
+	type entry struct {
+		present bool
+		n       int64
+	}
+	model := map[string]entry{}
+	steps := 3
+	if rt.Thorough() {
+		steps = 4
+	}
+	for s := 0; s < steps; s++ {
+		tag := "op" + string(rune('0'+s))
+		key := keys[rt.Choice(tag+".key", len(keys))]
+		switch rt.Choice(tag, 4) {
+		case 0: // put
+			r := &c02Rec{N: rt.I64(tag + ".N")}
+			r.SetKey("t:" + key)
+			rt.Assert(cached.Put(r) == nil, "delayed/put-ok")
+			model[key] = entry{true, r.N}
+		case 1: // delete
+			err := cached.Delete("t:" + key)
+			if model[key].present {
+				rt.Assert(err == nil, "delayed/delete-ok")
+				model[key] = entry{}
+			} else {
+				rt.Assert(errors.Is(err, ErrNotFound), "delayed/delete-missing-is-not-found")
+			}
+		case 2: // get through the caching interface: always the latest write
+			r, err := cached.Get("t:" + key)
+			if model[key].present {
+				rt.Assert(err == nil, "delayed/get-sees-latest-write")
+				if err == nil {
+					rt.Assert(r.(*c02Rec).N == model[key].n, "delayed/get-latest-data")
+				}
+			} else {
+				rt.Assert(errors.Is(err, ErrNotFound), "delayed/get-missing-is-not-found")
+			}
+		case 3: // flush: now every interface and every query sees the writes
+			cached.FlushCache()
+			for _, k := range keys {
+				r, err := plain.Get("t:" + k)
+				if model[k].present {
+					rt.Assert(err == nil, "delayed/flushed-write-visible-to-other-interfaces")
+					if err == nil {
+						rt.Assert(r.(*c02Rec).N == model[k].n, "delayed/flushed-data")
+					}
+				} else {
+					rt.Assert(errors.Is(err, ErrNotFound), "delayed/flushed-delete-visible-to-other-interfaces")
+				}
+			}
+			it, err := plain.Query(query.New("t:"))
+			rt.Assert(err == nil, "delayed/query-ok")
+			n := 0
+			for range it.Next {
+				n++
+			}
+			want := 0
+			for _, k := range keys {
+				if model[k].present {
+					want++
+				}
+			}
+			rt.Assert(n == want, "delayed/query-after-flush-yields-the-written-records")
+			rt.Reach("delayed-flushed")
+		}
+	}
+	rt.Reach("delayed-end")
+}
